@@ -533,6 +533,35 @@ func aperDecDomain(e *emitter) {
 			dec(name, append(append([]byte{}, b...), e.bytes(1+e.rng.Intn(4))...))
 		}
 	}
+	// head sweep of leaf types: every value of the first octet (extension bit, large-form bit of an extension index, first bits of
+	// a length or value) in front of four tails — a zero length, a length of one, the fragment marker, all ones. Three
+	// extensible ENUMERATED types always, ten more leaf types rotating with the seed (thorough: every leaf type).
+	{
+		leaves := leafTypes()
+		pick := []string{}
+		for _, n := range []string{"PagingDRX", "CauseRadioNetwork", "RRCEstablishmentCause"} {
+			for _, l := range leaves {
+				if l == n {
+					pick = append(pick, n)
+				}
+			}
+		}
+		if e.thorough() {
+			pick = leaves
+		} else if len(leaves) > 0 {
+			for k := 0; k < 10; k++ {
+				pick = append(pick, leaves[(int(e.seed)*10+k*7)%len(leaves)])
+			}
+		}
+		tails := [][]byte{{0, 0, 0, 0}, {1, 0, 0, 0}, {0x80, 0, 0, 0}, {0xff, 0xff, 0xff, 0xff}}
+		for _, n := range pick {
+			for b0 := 0; b0 < 256; b0++ {
+				for _, t := range tails {
+					e.op("aperdec", n, paramTok(topParamString(n)), hx(append([]byte{byte(b0)}, t...)))
+				}
+			}
+		}
+	}
 	// random strings
 	for i := 0; i < e.n/2; i++ {
 		b := e.bytes(e.rng.Intn(64))
